@@ -40,8 +40,8 @@ PROP = {
         "pairs are visited keys-then-values instead of interleaved: same tree, only the order of two panics could differ), the macro "
         "part of repl.evalOne (order DefineMacros / NumMacros / ExpandMacros), object.Environment Set/SetNoChecks as used on the macro "
         "store and the macro environment; evaluation of anything but a parameter lookup inside a macro body goes through the evaluator "
-        "model (evalInternal in a state with MaxDepth 0, no cache, no writer): declined when it names a macro, writes, or changes the "
-        "macro environment",
+        "model (evalInternal in the macro-body state: the session's MaxDepth and deadline, no cache, output discarded, no extensions): "
+        "declined when it names a macro or changes the macro environment",
         "not expressible in the pure model: Go-level node sharing (the rewriter must copy, not mutate) - covered only by the store "
         "re-dump after every expansion and evaluation (flag sm) over sessions with several uses",
         "the evaluation of the expanded program is compared implementation-against-implementation (expanded vs hand-substituted text); "
